@@ -484,13 +484,22 @@ SPEC = {
     'runner': 'c17',
     'bin': 'c17',
     'gen_cases': gen_cases,
+    'partial_note': 'adjust_zero_pages: general refinement theorem (table after = fix_tree of the forest) not proved; '
+                    'checked per case by the harness oracle and on one proved example',
     'rule': 'random bookmark forests (random/chain/wide/flat, 1..60 nodes) linearised in preorder, breadth-first or a random '
             'parent-before-child interleaving, distinct titles over ASCII (incl. PDF string specials), Latin, BMP (incl. U+FEFF, '
             'U+2828) and astral characters, any page of generated page trees with 1..40 pages, zero-page parents fixed by '
             'adjust_zero_pages, orphans; malformed stream: duplicate titles, non-page targets, no adjust, stale max_id, broken '
-            'Root, plus hand-built outlines exercising every branch of the reader; non-trivial = at least 2 bookmarks or a '
+            'Root, chains of height 256/257 (read back) and 258+ (known finding), plus hand-built outlines exercising every branch of the '
+            'reader incl. cyclic First/Next links (reference budget / depth limit); non-trivial = at least 2 bookmarks or a '
             'hand-built outline; distinct = distinct case text',
-    'extra_trusted': [],
+    'extra_trusted': [
+        'C17: Rust std str::is_ascii / encode_utf16 / String::from_utf16_lossy / from_utf8_lossy behave as Model/Outline.v and '
+        'Model/Toc.v state; tied by the differential runs over ASCII, Latin, BMP and astral titles',
+        'C17: get_named_destinations is not modelled (model answers "unmodelled" when the catalog has Dests or Names/Dests); '
+        'the generator never emits such catalogs for C17 (C13 covers that function)',
+        'C17: HashMap bookmark_table / processed are modelled as association lists (only keyed access is observable)',
+    ],
 }
 
 
@@ -499,8 +508,27 @@ def run(ctx):
 
 
 MANIFEST = {
-    'level_text': 'TODO',
-    'level_note': 'TODO',
-    'technique': 'Coq proof by refinement to a numbered forest + differential correspondence',
-    'design_ref': 'DESIGN.md 6 C17',
+    'level_text': 'Machine-checked proof (Coq) over hand-written models of add_bookmark / outline_child / build_outline and of '
+                  'get_outlines / get_outline / get_toc: every sequence of add_bookmark calls leaves the table holding the forest '
+                  'the calls denote (children in call order under the right parent, unknown-parent bookmarks nowhere); build_outline '
+                  'on any such table returns objects whose First/Last/Next/Prev/Parent/Count/Title/A/F and action S/D are those of '
+                  'the forest numbered in preorder from max_id+1 (fresh, pairwise distinct ids, max_id updated, nothing else '
+                  'changed, no panic below 2^32, fuel = height); the title bytes decode back for every Unicode string; after the '
+                  'README attach step get_toc returns exactly the preorder (titles, level = depth+1, page numbers, same order, no '
+                  'error entry) for distinct titles, page targets, a catalog without name trees, within one unit of fuel per '
+                  'bookmark and within the reference budget; and the same table of contents and page list after a save/load '
+                  'round trip, as a composition lemma over the C01 statement (objects equal up to number normalisation). Forests '
+                  'higher than OUTLINE_DEPTH_LIMIT+1 = 257 levels are a proved-and-replayed known finding (C17-deep-outline: '
+                  'get_toc answers Err). adjust_zero_pages is tied by correspondence and a harness oracle only (one proved example). '
+                  'Tied to the implementation by differential runs through the public API incl. save_to + load_mem on every case.',
+    'level_note': 'Trusted: Coq kernel; translator (DEREF_LIMIT, PAGE_TREE_DEPTH_LIMIT, OUTLINE_DEPTH_LIMIT and the budget/depth '
+                  'shape anchors of get_outlines); hand-written models tied by correspondence (observable: bookmark table, all '
+                  'objects after build_outline + attach, get_toc rows and error count, before and after reload); Rust std '
+                  'is_ascii / encode_utf16 / from_utf16_lossy / from_utf8_lossy as modelled in Model/Outline.v and Model/Toc.v; '
+                  'get_named_destinations not modelled (catalogs with Dests/Names are outside the theorem); stack exhaustion of the '
+                  'native recursions is outside the model; extraction/OCaml driver; Rust harness. No axioms; the reload theorem '
+                  'takes the C01 round-trip statement as explicit premises.',
+    'technique': 'Coq proof by refinement to a numbered forest (loop invariant of outline_child, invariant of add_bookmark, '
+                 'fuel/budget/depth-indexed simulation of the First/Next walk) + differential correspondence',
+    'design_ref': 'DESIGN.md 6 C17; notes/C17.md',
 }
